@@ -139,6 +139,18 @@ def candidates():
                     new = l[:m.start(1)] + ntok + l[m.end(1):]
                     cands.append({"file": rel, "line": i + 1, "op": "num %s->%s" % (tok, ntok), "old": l, "new": new})
             s = l.strip()
+            ind = l[: len(l) - len(l.lstrip())]
+            # assignment deletion
+            if re.match(r"^(self\.)?[a-z_][\w.]*(\[[^\]]*\])? (=|\+=|-=|\|=) [^=].*;$", s) and not s.startswith("let "):
+                cands.append({"file": rel, "line": i + 1, "op": "delete assignment", "old": l, "new": ind + "// (deleted) " + s})
+            # swallowed error: `call()?;` -> `let _ = call();`
+            if re.match(r"^[\w.:&*]+\(.*\)\?;$", s) and "let " not in s and "return" not in s:
+                cands.append({"file": rel, "line": i + 1, "op": "swallow error", "old": l, "new": ind + "let _ = " + s[:-2] + ";"})
+            # loop control
+            if s == "continue;":
+                cands.append({"file": rel, "line": i + 1, "op": "continue->break", "old": l, "new": ind + "break;"})
+            if s == "break;":
+                cands.append({"file": rel, "line": i + 1, "op": "break->continue", "old": l, "new": ind + "continue;"})
             # statement deletion: a call whose value is not used
             if re.match(r"^(self\.|w\.|writer\.|results\.|rw\.|state\.|stmts\.|[a-z_]+\.)[\w.()&*, \[\]:]*\)\??;$", s) and "let " not in s and "return" not in s:
                 cands.append({"file": rel, "line": i + 1, "op": "delete statement", "old": l, "new": l[: len(l) - len(l.lstrip())] + "// (deleted) " + s})
@@ -262,8 +274,12 @@ def main():
     ap.add_argument("--frac", type=float, default=0.25)
     ap.add_argument("--out", default=os.path.join(VERIF, "mutscan", "results.jsonl"))
     ap.add_argument("--list", action="store_true")
+    ap.add_argument("--ops", default="", help="only operators whose name contains one of these comma-separated strings")
     a = ap.parse_args()
     c = candidates()
+    if a.ops:
+        keys = a.ops.split(",")
+        c = [m for m in c if any(k in m["op"] for k in keys)]
     if a.list:
         from collections import Counter
         print(len(c), "candidates", Counter(x["file"] for x in c))
